@@ -88,6 +88,8 @@ static void sc_error(void) {
 	p_error_set_error(e, 1, 2, "first"); p_error_set_message(e, "second message"); p_error_set_message(e, NULL);
 	p_error_set_error_p(&p, 5, 6, "created through pointer"); p_error_set_error_p(&p, 7, 8, "ignored: already set");
 	(void)p_error_get_message(e); (void)p_error_get_message(c); (void)p_error_get_domain(l);
+	if (l && (p_error_get_code(l) != 3 || p_error_get_native_code(l) != 4 || (p_error_get_message(l) && strcmp(p_error_get_message(l), "literal message")))) DAMAGE("source error changed by p_error_copy");
+	if (c && (p_error_get_code(c) != 3 || p_error_get_native_code(c) != 4)) DAMAGE("copied error has wrong codes");
 	p_error_clear(l); p_error_set_code(l, 9);
 	p_error_free(e); p_error_free(l); p_error_free(c); p_error_free(p);
 }
@@ -142,6 +144,9 @@ static void sc_dir(void) {
 			p_error_free(err); err = NULL;
 			(void)p_dir_rewind(d, &err); p_error_free(err); err = NULL;
 		}
+		{ PDirEntry *e; int n = 0, files = 0, dirs = 0;
+		  va_quiet++; if (p_dir_rewind(d, NULL)) { while ((e = p_dir_get_next_entry(d, NULL)) != NULL && n < 100) { n++; if (e->type == P_DIR_ENTRY_TYPE_FILE) files++; else if (e->type == P_DIR_ENTRY_TYPE_DIR) dirs++; p_dir_entry_free(e); }
+		    if (files != 3 || dirs < 1) DAMAGE("directory object lists %d files / %d dirs after (failed) iterations, expected 3 files and the sub-directory", files, dirs); } va_quiet--; }
 		p_dir_free(d);
 	}
 	d = p_dir_new("/nonexistent/vf-dir", &err); p_error_free(err); err = NULL; p_dir_free(d);
@@ -191,6 +196,7 @@ static void sc_semaphore(void) {
 	s2 = p_semaphore_new(name, 5, P_SEM_ACCESS_OPEN, &err); p_error_free(err); err = NULL;
 	if (s2) { (void)p_semaphore_release(s2, NULL); p_semaphore_free(s2); }
 	(void)p_semaphore_release(s, NULL);
+	{ char pth[64]; long v; VA_QUIET(vh_sem_path(name, pth)); v = vh_sem_file_value(pth); if (v >= 0 && v != (s2 ? 3 : 2)) DAMAGE("semaphore counter is %ld after acquire, %s release", v, s2 ? "two" : "one"); }
 	p_semaphore_free(s);
 }
 
@@ -204,6 +210,8 @@ static void sc_shm(void) {
 	b = p_shm_new(name, 4096, P_SHM_ACCESS_READONLY, &err); p_error_free(err); err = NULL;
 	if (b) { if (((unsigned char *)p_shm_get_address(b))[100] != 0x5a) DAMAGE("second handle does not see the first handle's bytes"); p_shm_free(b); }
 	if (((unsigned char *)p_shm_get_address(a))[4095] != 0x5a) DAMAGE("segment content changed");
+	{ pboolean ok = FALSE; VA_QUIET(ok = p_shm_lock(a, NULL) && p_shm_unlock(a, NULL)); if (!ok) DAMAGE("first handle cannot lock/unlock after a %s second open", b ? "successful" : "failed"); }
+	if (p_shm_get_size(a) != 4096) DAMAGE("first handle reports size %zu after a second open", (size_t)p_shm_get_size(a));
 	p_shm_free(a);
 }
 
@@ -216,7 +224,10 @@ static void sc_shmbuffer(void) {
 	(void)p_shm_buffer_write(a, (ppointer)"0123456789", 10, &err); p_error_free(err); err = NULL;
 	b = p_shm_buffer_new(name, 100, &err); p_error_free(err); err = NULL;
 	if (b) { if (p_shm_buffer_read(b, out, 4, NULL) == 4 && memcmp(out, "0123", 4)) DAMAGE("buffer content wrong"); (void)p_shm_buffer_get_free_space(b, NULL); p_shm_buffer_free(b); }
-	(void)p_shm_buffer_get_used_space(a, NULL);
+	{ pssize used = -2, expect = -1; int wrote = 0, readn = 0; (void)wrote; (void)readn;
+	  VA_QUIET(used = p_shm_buffer_get_used_space(a, NULL)); expect = used;
+	  if (used != 0 && used != 10 && used != 6) DAMAGE("buffer holds %zd bytes after writing 10 and reading at most 4", (ssize_t)used);
+	  if (used > 0) { char o2[16]; pssize n = -1; VA_QUIET(n = p_shm_buffer_read(a, o2, 16, NULL)); if (n != expect || memcmp(o2, "0123456789" + (10 - n), (size_t)n)) DAMAGE("first handle reads %zd bytes / wrong bytes after a (failed) second open", (ssize_t)n); } }
 	p_shm_buffer_free(a);
 }
 
@@ -224,6 +235,7 @@ static void sc_sockaddr(void) {
 	PSocketAddress *a = p_socket_address_new("192.168.1.7", 80), *b = p_socket_address_new("fe80::1%lo", 443), *c = p_socket_address_new_any(P_SOCKET_FAMILY_INET6, 1), *d = p_socket_address_new_loopback(P_SOCKET_FAMILY_INET, 2), *e;
 	unsigned char nat[64]; pchar *t;
 	if (a) { t = p_socket_address_get_address(a); if (t && strcmp(t, "192.168.1.7")) DAMAGE("address text wrong"); p_free(t); if (p_socket_address_to_native(a, nat, sizeof nat)) { e = p_socket_address_new_from_native(nat, p_socket_address_get_native_size(a)); p_socket_address_free(e); } }
+	if (a) { t = NULL; VA_QUIET(t = p_socket_address_get_address(a)); if (!t || strcmp(t, "192.168.1.7") || p_socket_address_get_port(a) != 80) DAMAGE("address object answers differently after a (failed) text conversion"); p_free(t); }
 	if (b) { t = p_socket_address_get_address(b); p_free(t); }
 	(void)p_socket_address_new("not an address", 1);
 	p_socket_address_free(a); p_socket_address_free(b); p_socket_address_free(c); p_socket_address_free(d);
